@@ -48,6 +48,7 @@ func main() {
 	goarch := flag.String("goarch", "amd64", "GOARCH")
 	tags := flag.String("tags", "", "build tags")
 	quiet := flag.Bool("quiet", false, "only print non-OK obligations")
+	variantsOnly := flag.String("variants", "", "evaluate the self-validation corpus of a property (or 'all') without judging /repo")
 	flag.Parse()
 	debug.SetGCPercent(400)
 
@@ -57,6 +58,16 @@ func main() {
 		os.Exit(runSelfTest(*verif))
 	case *explain != "":
 		os.Exit(runExplain(*explain, *repo, *verif))
+	case *variantsOnly != "":
+		ids := []string{*variantsOnly}
+		if *variantsOnly == "all" {
+			ids = nil
+			for id := range props {
+				ids = append(ids, id)
+			}
+			sort.Strings(ids)
+		}
+		os.Exit(runVariantsOnly(ids, *repo, *verif))
 	case *prop == "":
 		fmt.Fprintln(os.Stderr, "need -prop")
 		os.Exit(2)
